@@ -47,3 +47,5 @@ func vOr(a, b bool) bool
 func vAnd(a, b bool) bool
 func vTapeRewind()
 func vDrawN(i int) uint32
+func vSecret(s string)
+func vSharedWriteText(i int) string
